@@ -65,6 +65,13 @@ TrClone ==
   /\ Has(Ev, "obs") /\ Has(Ev, "obs_to") => Expect("state image of the clone", Ev.obs, Ev.obs_to)
   /\ cls' = Set(cls, Ev.to, cls[Ev.g]) /\ prev' = Set(prev, Ev.to, 0) /\ UNCHANGED <<snap, fresh>>
 
+(* Clone::clone_from(g <- from): g joins the class of `from` *)
+TrCloneFrom ==
+  /\ IsEvent("clone_from") /\ NoPanic /\ Ev.g \in DOMAIN cls /\ Ev.from \in DOMAIN cls
+  /\ Expect("clone_from succeeded", TRUE, Ev.ok)
+  /\ Has(Ev, "obs") /\ Has(Ev, "obs_from") => Expect("state image after clone_from", Ev.obs_from, Ev.obs)
+  /\ cls' = Set(cls, Ev.g, cls[Ev.from]) /\ prev' = Set(prev, Ev.g, 0) /\ UNCHANGED <<snap, fresh>>
+
 TrSer ==
   /\ IsEvent("ser") /\ NoPanic /\ Ev.g \in DOMAIN cls
   /\ snap' = Set(snap, Ev.g, IF Ev.supported THEN cls[Ev.g] ELSE 0) /\ UNCHANGED <<cls, prev, fresh>>
@@ -102,7 +109,7 @@ TrDrop == IsEvent("drop") /\ UNCHANGED <<cls, prev, snap, fresh>>
 Init == l = 1 /\ cls = <<>> /\ prev = <<>> /\ snap = <<>> /\ fresh = 1
 Next == \/ TrReset \/ Ctor("from_seed") \/ Ctor("seed_from_u64") \/ Passive("debug") \/ Passive("src")
         \/ (\E e \in OutputOps : TrOutput(e))
-        \/ TrClone \/ TrSer \/ TrDe \/ TrDeImage \/ TrEq \/ TrDrop
+        \/ TrClone \/ TrCloneFrom \/ TrSer \/ TrDe \/ TrDeImage \/ TrEq \/ TrDrop
 Spec == Init /\ [][Next]_vars
 Accepted ==
   IF TLCGet("stats").diameter - 1 = Len(Rec) THEN TRUE
